@@ -131,6 +131,18 @@ PLUMB = {
 }
 
 
+def iterations(body):
+    """(iterable, element pattern, body) of every `for pat in it {..}` loop and every `it.for_each(|pat| ..)` call"""
+    for it, pat, b in H.for_loops(body):
+        yield it, pat, b
+    for c in H.nodes(body, "mcall"):
+        if str(c[1]).endswith("Iterator::for_each") and c[3] and H.tag(c[3][0]) == "closure":
+            cl = c[3][0]
+            params = cl[2]
+            if len(params) == 1:
+                yield c[2], params[0], cl[3]
+
+
 def run_prov(prog):
     RULE = "R-PROV"
     obs = []
@@ -142,7 +154,7 @@ def run_prov(prog):
             obs.append(bad(RULE, "%s:anchor" % short_path(path), "", "%s not found" % path))
             continue
         seen = set()
-        for it, pat, body in H.for_loops(h["body"]):
+        for it, pat, body in iterations(h["body"]):
             fld = None
             for x in H.walk(it):
                 if H.tag(x) == "field" and x[2].startswith(prefix + "_"):
